@@ -80,6 +80,7 @@ SHEETS = {
                'b{xonly:1}@media print{c{top:red;top:0}e{bottom:x}}',
     'vars': '@variables{C:red;d:1px}@variables{d:2px;e:"s";/*vc*/}a{color:var(C);left:var(d);top:var(nope);content:var(e);margin:var(d) var(d);right:var(nope, 3px)}'
             '@media print{b{left:var(d)}}',
+    'vars2': '@variables{c:red /*brand*/;g:rgb(1, /*g*/ 2, 3);w:1px}a{color:var(c);background-color:var(g);left:var(w);top:var(w) /*t*/}',
     'imports': '@charset "utf-8";@import "s.css";@import url(u.css) print,tv;@import \'s2.css\' all;@import url("q.css") tv "nm";a{color:red}',
     'literal': '@i\\mport "i.css";@IMPORT "j.css";@NameSpace l "http://l";@VARIABLES{Xy:1px}@MEDIA print{l|a{c\\olor:red !IMPORTANT;COLOR:blue;color:green!Im\\portant}}'
                '@PAGE :first{margin:0;@TOP-left{color:red}}@Font-Face{font-family:x}b{left:var(xY);t\\op:2px;top:3px}',
@@ -178,6 +179,25 @@ def errors_of(records):
     return sorted({errkey(m) for lvl, m in records if lvl in ('ERROR', 'CRITICAL', 'FATAL')})
 
 
+def _dom_valids(rules, out):
+    for r in rules:
+        st = getattr(r, 'style', None)
+        if st is not None:
+            out.extend(bool(p.valid) for p in st.getProperties(all=True))
+        sub = getattr(r, 'cssRules', None)
+        if sub is not None:
+            _dom_valids(sub, out)
+    return out
+
+
+def _tree_decls(nodes, out):
+    for n in nodes:
+        out.extend(b for b in n.get('body', ()) if b['k'] == 'decl')
+        if 'rules' in n:
+            _tree_decls(n['rules'], out)
+    return out
+
+
 class Sheet:
     def __init__(self, name, text=None):
         self.name = name
@@ -188,6 +208,14 @@ class Sheet:
             self.tree = M.annotate(self.dom, self.text)
             if M.plain(self.tree) != P.proj(self.dom, literal=True):
                 raise AssertionError('annotated projection is not the projection')
+            # "valid" is a matter of name and comment-free value: it is read from a twin DOM parsed without comments
+            # (a verdict that changes with a comment somewhere is then a difference between model and output)
+            twin = cssutils.CSSParser(parseComments=False, fetcher=lambda u: (None, '')).parseString(self.text)
+            tv, nodes = _dom_valids(twin.cssRules, []), _tree_decls(self.tree, [])
+            if len(tv) != len(nodes):
+                raise AssertionError('comment-free twin has another number of declarations')
+            for n, v in zip(nodes, tv):
+                n['valid'] = v
             self.d0 = self.dom.cssText
             t0 = self.d0.decode('utf-8')
             self.tok0 = M.tokens(t0)
